@@ -17,6 +17,8 @@ class Check(ReduceBase):
         if 'err' in obs:
             return {'err': obs['err']}
         d = {k: obs[k] for k in ('skel', 'in', 'out', 'mat')}
+        if isinstance(d['mat'], list) and all(len(r) == 0 for r in d['mat']):
+            d['mat'] = []  # no columns (an empty input space): the model's list of columns cannot tell the row count
         d['wf'] = True
         return d
 
